@@ -1,12 +1,744 @@
-//! Extension module (Tier A): owner fills in. Output: coq/gen/SessionFacts.v
+//! Extension module (Tier A) for C09. Output: coq/gen/SessionFacts.v
 //! Contract: return (text of the .v file, report lines). Each report line is one JSON object
 //! {"item":"SessionFacts.<name>","file":"<rust file>","ok":true|false[,"error":"..."]}.
 //! Fail closed: when a site is not recognised, OMIT the Gallina definition (so dependent proofs stop
 //! compiling) and push an ok:false report line.
+//!
+//! What is regenerated: for every declaration path of the command pipeline, the ORDERED list of
+//! "validation steps" (places that can return an error: `expr?`, `Err(Variant ..)`), "state
+//! mutations" (insert/push/remove/.. on a field path rooted at `self`, assignments to such a path,
+//! `std::mem::swap(&mut self.., ..)`), backend calls (`self.backend.m(..)`), opaque hand-offs of
+//! mutable engine state to code that is not walked (`f(&mut self.x)`, `o.m(self)`), `panic!`s, loops
+//! and calls of the two dispatchers (`typecheck_command`, `run_command`), in EVALUATION order
+//! (arguments before the call, the tried expression before its `?`, branches in source order).
+//! Calls of `&mut self` methods defined in the walked files are INLINED (their field paths prefixed
+//! with the receiver's path), so a list is the whole path through the typechecker / runner.
+//!
+//! Items:
+//!   typecheck_function_steps          src/typechecking.rs  TypeInfo::typecheck_function (whole body)
+//!   tc_arm_<x>_steps                  src/typechecking.rs  EGraph::typecheck_command, one per `match` arm
+//!   typecheck_program_steps           src/typechecking.rs  EGraph::typecheck_program
+//!   shadow_arm_<x>_steps              src/ast/check_shadowing.rs  Names::check_shadowing arms
+//!   resolve_before_proofs_steps       src/lib.rs  EGraph::resolve_command_before_proofs
+//!   process_program_steps             src/lib.rs  EGraph::process_program_internal
+//!   run_arm_<x>_steps                 src/lib.rs  EGraph::run_command, one per `match` arm
+//!   push_steps / pop_steps            src/lib.rs  EGraph::push / EGraph::pop
+use quote::ToTokens;
+use std::collections::HashMap;
+use std::path::Path;
+use syn::visit::Visit;
 
-pub fn generate(_repo: &std::path::Path) -> (String, Vec<String>) {
-    (
-        "(* GENERATED by /verif/translator (x_session.rs): nothing extracted yet *)\n".to_string(),
-        Vec::new(),
-    )
+const TC: &str = "src/typechecking.rs";
+const LIB: &str = "src/lib.rs";
+const SH: &str = "src/ast/check_shadowing.rs";
+
+fn toks<T: ToTokens>(t: &T) -> String {
+    t.to_token_stream().to_string()
+}
+
+#[derive(Clone, Debug, PartialEq)]
+enum Step {
+    Validate(String),
+    Mutate(String),
+    Backend(String),
+    Opaque(String),
+    Panics(String),
+    Call(String),
+    LoopStart,
+    LoopEnd,
+}
+
+fn coq_str(s: &str) -> String {
+    let t: String = s
+        .chars()
+        .map(|c| if c.is_ascii_alphanumeric() || "_.*:- ".contains(c) { c } else { '_' })
+        .collect();
+    format!("\"{}\"", t)
+}
+
+impl Step {
+    fn coq(&self) -> String {
+        match self {
+            Step::Validate(s) => format!("Validate {}", coq_str(s)),
+            Step::Mutate(s) => format!("Mutate {}", coq_str(s)),
+            Step::Backend(s) => format!("Backend {}", coq_str(s)),
+            Step::Opaque(s) => format!("Opaque {}", coq_str(s)),
+            Step::Panics(s) => format!("Panics {}", coq_str(s)),
+            Step::Call(s) => format!("Call {}", coq_str(s)),
+            Step::LoopStart => "LoopStart".into(),
+            Step::LoopEnd => "LoopEnd".into(),
+        }
+    }
+}
+
+/// a method with a receiver, found in one of the walked files
+#[derive(Clone)]
+struct KnownFn {
+    file: &'static str,
+    mutable: bool,
+    block: syn::Block,
+}
+
+struct Known {
+    fns: HashMap<String, Vec<KnownFn>>,
+}
+
+fn collect_known(files: &[(&'static str, syn::File)]) -> Known {
+    struct C {
+        file: &'static str,
+        out: Vec<(String, KnownFn)>,
+    }
+    impl<'ast> Visit<'ast> for C {
+        fn visit_impl_item_fn(&mut self, f: &'ast syn::ImplItemFn) {
+            if let Some(syn::FnArg::Receiver(r)) = f.sig.inputs.first() {
+                self.out.push((
+                    f.sig.ident.to_string(),
+                    KnownFn { file: self.file, mutable: r.mutability.is_some(), block: f.block.clone() },
+                ));
+            }
+        }
+        fn visit_item_mod(&mut self, m: &'ast syn::ItemMod) {
+            if m.attrs.iter().any(|a| toks(a).contains("test")) {
+                return;
+            }
+            syn::visit::visit_item_mod(self, m);
+        }
+    }
+    let mut fns: HashMap<String, Vec<KnownFn>> = HashMap::new();
+    for (name, file) in files {
+        let mut c = C { file: name, out: vec![] };
+        c.visit_file(file);
+        for (n, k) in c.out {
+            fns.entry(n).or_default().push(k);
+        }
+    }
+    Known { fns }
+}
+
+const MUTATORS: &[&str] = &[
+    "insert", "push", "push_back", "push_front", "remove", "clear", "extend", "retain", "pop", "take", "truncate",
+    "swap_remove", "shift_remove", "append", "drain", "replace", "union", "get_or_insert_with", "insert_full",
+];
+/// methods through which a field path is still "the same place"
+const THROUGH: &[&str] = &[
+    "as_mut", "as_ref", "unwrap", "expect", "get_mut", "entry", "or_default", "or_insert_with", "iter_mut", "values_mut",
+    "borrow_mut", "lock", "write", "as_deref_mut", "get", "or_insert",
+];
+/// dispatchers that are never inlined (their arms are separate items)
+const DISPATCH: &[&str] = &["typecheck_command", "run_command", "process_program_internal", "check_shadowing"];
+
+struct Walker<'k> {
+    known: &'k Known,
+    file: &'static str,
+    /// path prefix of `self` in the function being walked ("" at top level)
+    prefix: String,
+    aliases: HashMap<String, String>,
+    steps: Vec<Step>,
+    stack: Vec<String>,
+    errors: Vec<String>,
+    /// when walking a dispatcher arm: skip `if let <Enum>::<Other> .. = ..` statements
+    arm_variant: Option<String>,
+}
+
+fn join(a: &str, b: &str) -> String {
+    if a.is_empty() {
+        b.to_string()
+    } else if b.is_empty() {
+        a.to_string()
+    } else {
+        format!("{a}.{b}")
+    }
+}
+
+impl<'k> Walker<'k> {
+    /// the field path (relative to the outermost `self`) an expression denotes, if it is rooted at `self`
+    fn self_path(&self, e: &syn::Expr) -> Option<String> {
+        match e {
+            syn::Expr::Reference(r) => self.self_path(&r.expr),
+            syn::Expr::Paren(p) => self.self_path(&p.expr),
+            syn::Expr::Unary(u) => self.self_path(&u.expr),
+            syn::Expr::Try(t) => self.self_path(&t.expr),
+            syn::Expr::Path(p) => {
+                let id = p.path.get_ident()?.to_string();
+                if id == "self" {
+                    Some(self.prefix.clone())
+                } else {
+                    self.aliases.get(&id).cloned()
+                }
+            }
+            syn::Expr::Field(f) => {
+                let base = self.self_path(&f.base)?;
+                Some(join(&base, &toks(&f.member)))
+            }
+            syn::Expr::Index(i) => self.self_path(&i.expr),
+            syn::Expr::MethodCall(m) => {
+                if THROUGH.contains(&m.method.to_string().as_str()) {
+                    self.self_path(&m.receiver)
+                } else {
+                    None
+                }
+            }
+            _ => None,
+        }
+    }
+
+    fn bind_pattern(&mut self, pat: &syn::Pat, path: &str) {
+        struct P(Vec<String>);
+        impl<'ast> Visit<'ast> for P {
+            fn visit_pat_ident(&mut self, p: &'ast syn::PatIdent) {
+                self.0.push(p.ident.to_string());
+                syn::visit::visit_pat_ident(self, p);
+            }
+        }
+        let mut p = P(vec![]);
+        p.visit_pat(pat);
+        for id in p.0 {
+            self.aliases.insert(id, path.to_string());
+        }
+    }
+
+    fn unbind_pattern(&mut self, pat: &syn::Pat) {
+        struct P(Vec<String>);
+        impl<'ast> Visit<'ast> for P {
+            fn visit_pat_ident(&mut self, p: &'ast syn::PatIdent) {
+                self.0.push(p.ident.to_string());
+            }
+        }
+        let mut p = P(vec![]);
+        p.visit_pat(pat);
+        for id in p.0 {
+            self.aliases.remove(&id);
+        }
+    }
+
+    fn lookup_known(&self, name: &str) -> Result<Option<KnownFn>, String> {
+        let Some(c) = self.known.fns.get(name) else { return Ok(None) };
+        let same: Vec<&KnownFn> = c.iter().filter(|k| k.file == self.file).collect();
+        let pick: Vec<&KnownFn> = if same.is_empty() { c.iter().collect() } else { same };
+        if pick.len() == 1 {
+            Ok(Some(pick[0].clone()))
+        } else if pick.iter().all(|k| !k.mutable) {
+            Ok(None)
+        } else {
+            Err(format!("method `{name}` is defined {} times; cannot decide which one is called", pick.len()))
+        }
+    }
+
+    fn inline(&mut self, name: &str, k: &KnownFn, recv_path: String) {
+        if self.stack.iter().any(|s| s == name) {
+            self.steps.push(Step::Call(name.to_string()));
+            return;
+        }
+        let mut w = Walker {
+            known: self.known,
+            file: k.file,
+            prefix: recv_path,
+            aliases: HashMap::new(),
+            steps: vec![],
+            stack: self.stack.clone(),
+            errors: vec![],
+            arm_variant: None,
+        };
+        w.stack.push(name.to_string());
+        w.visit_block(&k.block);
+        self.steps.append(&mut w.steps);
+        self.errors.append(&mut w.errors);
+    }
+
+    /// receivers whose methods are defined in the walked files: the EGraph itself (also the
+    /// `original_typechecking` EGraph of proof mode), its TypeInfo, its shadowing record
+    fn walked_struct(path: &str) -> bool {
+        matches!(path.rsplit('.').next().unwrap_or(""), "" | "type_info" | "names" | "original_typechecking")
+    }
+
+    /// sibling branches are exclusive: list the branches that can only reject (or panic) before the
+    /// branches that do anything else; every execution path stays a subsequence of the list
+    fn emit_branches(&mut self, mut branches: Vec<Vec<Step>>) {
+        let only_rejects = |b: &Vec<Step>| b.iter().all(|s| matches!(s, Step::Validate(_) | Step::Panics(_)));
+        let (mut first, mut rest): (Vec<Vec<Step>>, Vec<Vec<Step>>) = (vec![], vec![]);
+        for b in branches.drain(..) {
+            if only_rejects(&b) {
+                first.push(b)
+            } else {
+                rest.push(b)
+            }
+        }
+        for mut b in first.into_iter().chain(rest) {
+            self.steps.append(&mut b);
+        }
+    }
+
+    fn in_branch(&mut self, f: impl FnOnce(&mut Self)) -> Vec<Step> {
+        let saved = std::mem::take(&mut self.steps);
+        f(self);
+        std::mem::replace(&mut self.steps, saved)
+    }
+
+    fn arg_hands_off_state(&self, a: &syn::Expr) -> bool {
+        match a {
+            syn::Expr::Reference(r) if r.mutability.is_some() => self.self_path(&r.expr).is_some(),
+            syn::Expr::Path(p) => p.path.is_ident("self"),
+            _ => false,
+        }
+    }
+
+    fn err_label(e: &syn::Expr) -> String {
+        fn last(p: &syn::Path) -> String {
+            p.segments.last().map(|s| s.ident.to_string()).unwrap_or_else(|| "Err".into())
+        }
+        match e {
+            syn::Expr::Call(c) => {
+                if let syn::Expr::Path(p) = &*c.func {
+                    let l = last(&p.path);
+                    // Error::TypeError(TypeError::X(..)) -> X
+                    if (l == "TypeError" || l == "from") && c.args.len() == 1 {
+                        return Self::err_label(&c.args[0]);
+                    }
+                    l
+                } else {
+                    "Err".into()
+                }
+            }
+            syn::Expr::Struct(s) => last(&s.path),
+            syn::Expr::Path(p) => last(&p.path),
+            syn::Expr::MethodCall(m) => Self::err_label(&m.receiver),
+            _ => "Err".into(),
+        }
+    }
+
+    fn outer_call_name(e: &syn::Expr) -> String {
+        match e {
+            syn::Expr::MethodCall(m) => m.method.to_string(),
+            syn::Expr::Call(c) => match &*c.func {
+                syn::Expr::Path(p) => p.path.segments.last().map(|s| s.ident.to_string()).unwrap_or_default(),
+                _ => "call".into(),
+            },
+            syn::Expr::Paren(p) => Self::outer_call_name(&p.expr),
+            syn::Expr::Path(p) => p.path.segments.last().map(|s| s.ident.to_string()).unwrap_or_default(),
+            syn::Expr::If(_) | syn::Expr::Match(_) | syn::Expr::Block(_) => "block".into(),
+            _ => "expr".into(),
+        }
+    }
+
+    /// was the call `e` inlined (a known `&mut self` method on a self-rooted receiver)?
+    fn is_inlined_call(&self, e: &syn::Expr) -> bool {
+        if let syn::Expr::MethodCall(m) = e {
+            let name = m.method.to_string();
+            if let Some(path) = self.self_path(&m.receiver) {
+                if path.rsplit('.').next() == Some("backend") {
+                    return false;
+                }
+                if DISPATCH.contains(&name.as_str()) {
+                    return true;
+                }
+                if Self::walked_struct(&path) {
+                    if let Ok(Some(k)) = self.lookup_known(&name) {
+                        return k.mutable;
+                    }
+                }
+            }
+        }
+        false
+    }
+}
+
+impl<'ast, 'k> Visit<'ast> for Walker<'k> {
+    fn visit_expr_try(&mut self, t: &'ast syn::ExprTry) {
+        syn::visit::visit_expr_try(self, t);
+        if !self.is_inlined_call(&t.expr) {
+            self.steps.push(Step::Validate(Self::outer_call_name(&t.expr)));
+        }
+    }
+
+    fn visit_expr_call(&mut self, c: &'ast syn::ExprCall) {
+        syn::visit::visit_expr_call(self, c);
+        let fname = match &*c.func {
+            syn::Expr::Path(p) => p.path.segments.iter().map(|s| s.ident.to_string()).collect::<Vec<_>>().join("::"),
+            _ => "call".to_string(),
+        };
+        let last = fname.rsplit("::").next().unwrap_or("").to_string();
+        if last == "Err" && c.args.len() == 1 {
+            self.steps.push(Step::Validate(Self::err_label(&c.args[0])));
+            return;
+        }
+        if fname.contains("mem::") && (last == "swap" || last == "replace" || last == "take") {
+            for a in &c.args {
+                if let syn::Expr::Reference(r) = a {
+                    if r.mutability.is_some() {
+                        if let Some(p) = self.self_path(&r.expr) {
+                            self.steps.push(Step::Mutate(p));
+                        }
+                    }
+                }
+            }
+            return;
+        }
+        if c.args.iter().any(|a| self.arg_hands_off_state(a)) {
+            self.steps.push(Step::Opaque(last));
+        }
+    }
+
+    fn visit_expr_method_call(&mut self, m: &'ast syn::ExprMethodCall) {
+        syn::visit::visit_expr_method_call(self, m);
+        let name = m.method.to_string();
+        let recv = self.self_path(&m.receiver);
+        if let Some(path) = &recv {
+            // calls on the backend are steps of their own
+            let lastseg = path.rsplit('.').next().unwrap_or("");
+            if lastseg == "backend" {
+                self.steps.push(Step::Backend(join(path, &name)));
+                return;
+            }
+            if DISPATCH.contains(&name.as_str()) {
+                self.steps.push(Step::Call(name));
+                return;
+            }
+            if Self::walked_struct(path) {
+                match self.lookup_known(&name) {
+                    Err(e) => {
+                        self.errors.push(e);
+                        return;
+                    }
+                    Ok(Some(k)) if k.mutable => {
+                        self.inline(&name, &k, path.clone());
+                        return;
+                    }
+                    Ok(Some(_)) => return, // `&self` method of the walked files: no mutation of self
+                    Ok(None) => {}
+                }
+            }
+            if MUTATORS.contains(&name.as_str()) && !path.is_empty() {
+                self.steps.push(Step::Mutate(path.clone()));
+                return;
+            }
+        }
+        if m.args.iter().any(|a| self.arg_hands_off_state(a)) {
+            self.steps.push(Step::Opaque(name));
+        }
+    }
+
+    fn visit_expr_assign(&mut self, a: &'ast syn::ExprAssign) {
+        self.visit_expr(&a.right);
+        if let Some(p) = self.self_path(&a.left) {
+            self.steps.push(Step::Mutate(if p.is_empty() { "*self".into() } else { p }));
+        } else {
+            self.visit_expr(&a.left);
+        }
+    }
+
+    fn visit_expr_binary(&mut self, b: &'ast syn::ExprBinary) {
+        syn::visit::visit_expr_binary(self, b);
+        use syn::BinOp::*;
+        if matches!(
+            b.op,
+            AddAssign(_) | SubAssign(_) | MulAssign(_) | DivAssign(_) | RemAssign(_) | BitXorAssign(_) | BitAndAssign(_)
+                | BitOrAssign(_) | ShlAssign(_) | ShrAssign(_)
+        ) {
+            if let Some(p) = self.self_path(&b.left) {
+                self.steps.push(Step::Mutate(p));
+            }
+        }
+    }
+
+    fn visit_local(&mut self, l: &'ast syn::Local) {
+        if let Some(init) = &l.init {
+            self.visit_expr(&init.expr);
+            if let Some((_, d)) = &init.diverge {
+                self.visit_expr(d);
+            }
+            match self.self_path(&init.expr) {
+                Some(p) => self.bind_pattern(&l.pat, &p),
+                None => self.unbind_pattern(&l.pat),
+            }
+        }
+    }
+
+    fn visit_expr_let(&mut self, l: &'ast syn::ExprLet) {
+        self.visit_expr(&l.expr);
+        match self.self_path(&l.expr) {
+            Some(p) => self.bind_pattern(&l.pat, &p),
+            None => self.unbind_pattern(&l.pat),
+        }
+    }
+
+    fn visit_expr_if(&mut self, i: &'ast syn::ExprIf) {
+        if let (Some(v), syn::Expr::Let(l)) = (&self.arm_variant, &*i.cond) {
+            let pat = toks(&l.pat);
+            if pat.contains("NCommand ::") && !pat.contains(&format!(":: {v}")) {
+                return; // applies to another arm's command only
+            }
+        }
+        self.visit_expr(&i.cond);
+        let mut branches = vec![self.in_branch(|w| w.visit_block(&i.then_branch))];
+        if let Some((_, e)) = &i.else_branch {
+            branches.push(self.in_branch(|w| w.visit_expr(e)));
+        }
+        self.emit_branches(branches);
+    }
+
+    fn visit_expr_match(&mut self, m: &'ast syn::ExprMatch) {
+        self.visit_expr(&m.expr);
+        let sp = self.self_path(&m.expr);
+        let mut branches = vec![];
+        for arm in &m.arms {
+            match &sp {
+                Some(p) => self.bind_pattern(&arm.pat, p),
+                None => self.unbind_pattern(&arm.pat),
+            }
+            branches.push(self.in_branch(|w| {
+                if let Some((_, g)) = &arm.guard {
+                    w.visit_expr(g);
+                }
+                w.visit_expr(&arm.body);
+            }));
+        }
+        self.emit_branches(branches);
+    }
+
+    fn visit_expr_for_loop(&mut self, f: &'ast syn::ExprForLoop) {
+        self.visit_expr(&f.expr);
+        self.unbind_pattern(&f.pat);
+        self.steps.push(Step::LoopStart);
+        self.visit_block(&f.body);
+        self.steps.push(Step::LoopEnd);
+    }
+
+    fn visit_expr_while(&mut self, w: &'ast syn::ExprWhile) {
+        self.steps.push(Step::LoopStart);
+        self.visit_expr(&w.cond);
+        self.visit_block(&w.body);
+        self.steps.push(Step::LoopEnd);
+    }
+
+    fn visit_macro(&mut self, m: &'ast syn::Macro) {
+        let name = m.path.segments.last().map(|s| s.ident.to_string()).unwrap_or_default();
+        if name == "panic" || name == "unimplemented" || name == "todo" {
+            let t = m.tokens.to_string();
+            let lit: String = t.chars().skip_while(|c| *c != '"').skip(1).take_while(|c| *c != '"' && *c != '{').collect();
+            self.steps.push(Step::Panics(lit.trim().chars().take(40).collect()));
+        }
+    }
+
+    fn visit_item(&mut self, _i: &'ast syn::Item) {
+        // nested items (fn inside fn) are only walked when called; they have no `self`
+    }
+}
+
+fn find_method(file: &syn::File, name: &str) -> Result<syn::Block, String> {
+    struct F<'n> {
+        name: &'n str,
+        found: Vec<syn::Block>,
+    }
+    impl<'ast, 'n> Visit<'ast> for F<'n> {
+        fn visit_impl_item_fn(&mut self, f: &'ast syn::ImplItemFn) {
+            if f.sig.ident == self.name {
+                self.found.push(f.block.clone());
+            }
+        }
+        fn visit_item_mod(&mut self, m: &'ast syn::ItemMod) {
+            if m.attrs.iter().any(|a| toks(a).contains("test")) {
+                return;
+            }
+            syn::visit::visit_item_mod(self, m);
+        }
+    }
+    let mut v = F { name, found: vec![] };
+    v.visit_file(file);
+    match v.found.len() {
+        1 => Ok(v.found.remove(0)),
+        n => Err(format!("expected exactly one method `{name}`, found {n}")),
+    }
+}
+
+fn walk_block(known: &Known, file: &'static str, fname: &str, b: &syn::Block) -> Result<Vec<Step>, String> {
+    let mut w = Walker {
+        known,
+        file,
+        prefix: String::new(),
+        aliases: HashMap::new(),
+        steps: vec![],
+        stack: vec![fname.to_string()],
+        errors: vec![],
+        arm_variant: None,
+    };
+    w.visit_block(b);
+    if let Some(e) = w.errors.first() {
+        return Err(e.clone());
+    }
+    Ok(w.steps)
+}
+
+/// the statement index and the `match` over the command enum in a dispatcher's body
+fn dispatcher_match<'a>(b: &'a syn::Block, enum_name: &str) -> Result<(usize, &'a syn::ExprMatch), String> {
+    fn as_match(e: &syn::Expr) -> Option<&syn::ExprMatch> {
+        match e {
+            syn::Expr::Match(m) => Some(m),
+            _ => None,
+        }
+    }
+    for (i, s) in b.stmts.iter().enumerate() {
+        let m = match s {
+            syn::Stmt::Expr(e, _) => as_match(e),
+            syn::Stmt::Local(l) => l.init.as_ref().and_then(|i| as_match(&i.expr)),
+            _ => None,
+        };
+        if let Some(m) = m {
+            let key = format!("{enum_name} ::");
+            if m.arms.iter().filter(|a| toks(&a.pat).starts_with(&key)).count() >= 10 {
+                return Ok((i, m));
+            }
+        }
+    }
+    Err(format!("no `match` over {enum_name} found among the statements of the body"))
+}
+
+/// steps of one arm of a dispatcher: statements before the match, the arm, statements after it
+fn walk_arm(
+    known: &Known,
+    file: &'static str,
+    fname: &str,
+    b: &syn::Block,
+    enum_name: &str,
+    variant: &str,
+    pat_has: Option<&str>,
+    pat_lacks: Option<&str>,
+) -> Result<Vec<Step>, String> {
+    let (idx, m) = dispatcher_match(b, enum_name)?;
+    let key = format!("{enum_name} :: {variant}");
+    let arms: Vec<&syn::Arm> = m
+        .arms
+        .iter()
+        .filter(|a| {
+            let p = toks(&a.pat);
+            let after = p.strip_prefix(&key);
+            let exact = matches!(after, Some(r) if r.is_empty() || r.starts_with(' ') || r.starts_with('(') || r.starts_with('{'));
+            exact && pat_has.map_or(true, |h| p.contains(h)) && pat_lacks.map_or(true, |h| !p.contains(h))
+        })
+        .collect();
+    if arms.len() != 1 {
+        return Err(format!("expected exactly one arm `{key}` (has {pat_has:?}, lacks {pat_lacks:?}) in {fname}, found {}", arms.len()));
+    }
+    let mut w = Walker {
+        known,
+        file,
+        prefix: String::new(),
+        aliases: HashMap::new(),
+        steps: vec![],
+        stack: vec![fname.to_string()],
+        errors: vec![],
+        arm_variant: Some(variant.to_string()),
+    };
+    for s in &b.stmts[..idx] {
+        w.visit_stmt(s);
+    }
+    // scrutinee, then the chosen arm
+    w.visit_expr(&m.expr);
+    if let Some((_, g)) = &arms[0].guard {
+        w.visit_expr(g);
+    }
+    w.visit_expr(&arms[0].body);
+    for s in &b.stmts[idx + 1..] {
+        w.visit_stmt(s);
+    }
+    if let Some(e) = w.errors.first() {
+        return Err(e.clone());
+    }
+    Ok(w.steps)
+}
+
+pub fn generate(repo: &Path) -> (String, Vec<String>) {
+    let mut out = String::new();
+    let mut report = Vec::new();
+    out.push_str("(* GENERATED by /verif/translator (x_session.rs) from src/typechecking.rs, src/lib.rs,\n");
+    out.push_str("   src/ast/check_shadowing.rs: ordered validation / mutation steps of every declaration path. *)\n");
+    out.push_str("From Coq Require Import List String.\nImport ListNotations.\nOpen Scope string_scope.\n\n");
+    out.push_str("Inductive sstep :=\n| Validate (label : string)   (* can return Err here: `e?` or `Err(Variant ..)` *)\n");
+    out.push_str("| Mutate (field : string)     (* insert / push / remove / assignment on a field path rooted at self *)\n");
+    out.push_str("| Backend (call : string)     (* method call on self.backend *)\n");
+    out.push_str("| Opaque (callee : string)    (* mutable engine state handed to code that is not walked *)\n");
+    out.push_str("| Panics (msg : string)       (* panic! site *)\n");
+    out.push_str("| Call (dispatcher : string)  (* typecheck_command / run_command / check_shadowing / recursion *)\n");
+    out.push_str("| LoopStart | LoopEnd.\n\n");
+
+    let mut files: Vec<(&'static str, syn::File)> = vec![];
+    for rel in [TC, LIB, SH] {
+        let parsed = std::fs::read_to_string(repo.join(rel))
+            .map_err(|e| format!("{rel}: {e}"))
+            .and_then(|s| syn::parse_file(&s).map_err(|e| format!("{rel}: {e}")));
+        match parsed {
+            Ok(f) => files.push((rel, f)),
+            Err(e) => {
+                report.push(format!("{{\"item\":\"SessionFacts\",\"file\":\"{rel}\",\"ok\":false,\"error\":{:?}}}", e));
+                return (out, report);
+            }
+        }
+    }
+    let known = collect_known(&files);
+    let file_of = |rel: &str| -> &syn::File { &files.iter().find(|(n, _)| *n == rel).unwrap().1 };
+
+    let mut emit = |name: &str, rel: &str, r: Result<Vec<Step>, String>| match r {
+        Ok(steps) => {
+            let body: Vec<String> = steps.iter().map(|s| s.coq()).collect();
+            out.push_str(&format!("Definition {name} : list sstep :=\n  [{}].\n\n", body.join(";\n   ")));
+            report.push(format!("{{\"item\":\"SessionFacts.{name}\",\"file\":\"{rel}\",\"ok\":true}}"));
+        }
+        Err(e) => {
+            out.push_str(&format!("(* {name}: NOT EXTRACTED: {} *)\n\n", e.replace("*)", "* )")));
+            report.push(format!("{{\"item\":\"SessionFacts.{name}\",\"file\":\"{rel}\",\"ok\":false,\"error\":{:?}}}", e));
+        }
+    };
+
+    // whole functions
+    let whole: &[(&str, &'static str, &str)] = &[
+        ("typecheck_function_steps", TC, "typecheck_function"),
+        ("typecheck_program_steps", TC, "typecheck_program"),
+        ("resolve_before_proofs_steps", LIB, "resolve_command_before_proofs"),
+        ("process_program_steps", LIB, "process_program_internal"),
+        ("push_steps", LIB, "push"),
+        ("pop_steps", LIB, "pop"),
+    ];
+    for (item, rel, f) in whole {
+        let r = find_method(file_of(rel), f).and_then(|b| walk_block(&known, rel, f, &b));
+        emit(item, rel, r);
+    }
+
+    // dispatcher arms: (item, file, fn, enum, variant, pattern must contain, pattern must not contain)
+    type Arm = (&'static str, &'static str, &'static str, &'static str, &'static str, Option<&'static str>, Option<&'static str>);
+    let arms: &[Arm] = &[
+        ("tc_arm_function_steps", TC, "typecheck_command", "NCommand", "Function", None, None),
+        ("tc_arm_sort_steps", TC, "typecheck_command", "NCommand", "Sort", None, None),
+        ("tc_arm_let_steps", TC, "typecheck_command", "NCommand", "CoreAction", Some("Action :: Let"), None),
+        ("tc_arm_action_steps", TC, "typecheck_command", "NCommand", "CoreAction", None, Some("Action :: Let")),
+        ("tc_arm_rule_steps", TC, "typecheck_command", "NCommand", "NormRule", None, None),
+        ("tc_arm_check_steps", TC, "typecheck_command", "NCommand", "Check", None, None),
+        ("tc_arm_schedule_steps", TC, "typecheck_command", "NCommand", "RunSchedule", None, None),
+        ("tc_arm_ruleset_steps", TC, "typecheck_command", "NCommand", "AddRuleset", None, None),
+        ("tc_arm_combined_steps", TC, "typecheck_command", "NCommand", "UnstableCombinedRuleset", None, None),
+        ("tc_arm_push_steps", TC, "typecheck_command", "NCommand", "Push", None, None),
+        ("tc_arm_pop_steps", TC, "typecheck_command", "NCommand", "Pop", None, None),
+        ("tc_arm_printsize_steps", TC, "typecheck_command", "NCommand", "PrintSize", None, None),
+        ("tc_arm_fail_steps", TC, "typecheck_command", "NCommand", "Fail", None, None),
+        ("shadow_arm_sort_steps", SH, "check_shadowing", "ResolvedNCommand", "Sort", None, None),
+        ("shadow_arm_function_steps", SH, "check_shadowing", "ResolvedNCommand", "Function", None, None),
+        ("shadow_arm_ruleset_steps", SH, "check_shadowing", "ResolvedNCommand", "AddRuleset", None, None),
+        ("shadow_arm_combined_steps", SH, "check_shadowing", "ResolvedNCommand", "UnstableCombinedRuleset", None, None),
+        ("shadow_arm_rule_steps", SH, "check_shadowing", "ResolvedNCommand", "NormRule", None, None),
+        ("shadow_arm_action_steps", SH, "check_shadowing", "ResolvedNCommand", "CoreAction", None, None),
+        ("shadow_arm_fail_steps", SH, "check_shadowing", "ResolvedNCommand", "Fail", None, None),
+        ("run_arm_sort_steps", LIB, "run_command", "ResolvedNCommand", "Sort", None, None),
+        ("run_arm_function_steps", LIB, "run_command", "ResolvedNCommand", "Function", None, None),
+        ("run_arm_ruleset_steps", LIB, "run_command", "ResolvedNCommand", "AddRuleset", None, None),
+        ("run_arm_combined_steps", LIB, "run_command", "ResolvedNCommand", "UnstableCombinedRuleset", None, None),
+        ("run_arm_rule_steps", LIB, "run_command", "ResolvedNCommand", "NormRule", None, None),
+        ("run_arm_action_steps", LIB, "run_command", "ResolvedNCommand", "CoreAction", None, None),
+        ("run_arm_check_steps", LIB, "run_command", "ResolvedNCommand", "Check", None, None),
+        ("run_arm_push_steps", LIB, "run_command", "ResolvedNCommand", "Push", None, None),
+        ("run_arm_pop_steps", LIB, "run_command", "ResolvedNCommand", "Pop", None, None),
+        ("run_arm_fail_steps", LIB, "run_command", "ResolvedNCommand", "Fail", None, None),
+    ];
+    for (item, rel, f, en, var, has, lacks) in arms {
+        let r = find_method(file_of(rel), f).and_then(|b| walk_arm(&known, rel, f, &b, en, var, *has, *lacks));
+        emit(item, rel, r);
+    }
+    (out, report)
 }
